@@ -12,12 +12,12 @@ Theorem uncontract_segmented_spec : unc_seg_shells_spec_stmt is0_s same_s lit_un
 Proof. exact (@C07Spec.unc_seg_shells_spec _ _ _ _ _ _ _ K). Qed.
 Print Assumptions uncontract_segmented_spec.
 
-(* ... no primitive is emitted twice ... *)
+(* ... no (momentum, primitive) is emitted twice, also not through a combined shell next to a plain one ... *)
 Theorem uncontract_segmented_nodup : unc_seg_shells_nodup_stmt same_s lit_unc_seg_one.
 Proof. exact (@C07Spec.unc_seg_shells_nodup _ _ _ _ _ _ _ K). Qed.
 Print Assumptions uncontract_segmented_nodup.
 
-(* ... and every emitted shell is the unit shell of a primitive of the input *)
+(* ... and every emitted shell is the unit shell of a primitive of an input shell, for a non-empty selection of its momenta *)
 Theorem uncontract_segmented_shape : unc_seg_shells_shape_stmt same_s lit_unc_seg_one.
 Proof. exact (@C07Spec.unc_seg_shells_shape _ same_s lit_unc_seg_one). Qed.
 Print Assumptions uncontract_segmented_shape.
